@@ -62,6 +62,26 @@ Theorem C13_numbers :
 Proof. exact build_number. Qed.
 Print Assumptions C13_numbers.
 
+(* parse(..., defaults=True): a number without a supplied input is a made-up source that
+   is remembered (args_map as a dict extended on first use).  Whatever numbers are looked
+   up in whatever order, with any other objects created in between: every occurrence of a
+   number denotes the same object, different numbers denote different objects, a supplied
+   number is the supplied object. *)
+Theorem C13_defaults_same_object : forall (ninputs : nat) (ops : list dop) (c0 n : nat) (v1 v2 : val),
+  In (n, v1) (drun ninputs ops [] c0) -> In (n, v2) (drun ninputs ops [] c0) -> v1 = v2.
+Proof. exact defaults_same_object. Qed.
+Print Assumptions C13_defaults_same_object.
+
+Theorem C13_defaults_distinct : forall (ninputs : nat) (ops : list dop) (c0 n1 n2 : nat) (v1 v2 : val),
+  In (n1, v1) (drun ninputs ops [] c0) -> In (n2, v2) (drun ninputs ops [] c0) -> n1 <> n2 -> v1 <> v2.
+Proof. exact defaults_distinct. Qed.
+Print Assumptions C13_defaults_distinct.
+
+Theorem C13_defaults_supplied : forall (ninputs : nat) (ops : list dop) (c0 n : nat) (v : val) (k : nat),
+  In (n, v) (drun ninputs ops [] c0) -> supplied ninputs n = Some k -> v = VIn k.
+Proof. exact defaults_supplied. Qed.
+Print Assumptions C13_defaults_supplied.
+
 (* `-` is a fresh anonymous source: the sources in a constructed tree are pairwise
    different objects that did not exist before *)
 Theorem C13_dash_fresh :
@@ -219,6 +239,13 @@ Example x_computed :
          EvApp (VApp 2 (VOp 0 0) (VSrc 1));
          EvExact (VSrc 1) x_FA; EvSrc (VSrc 1); EvOp (VOp 0 0)]).
 Proof. repeat split; vm_compute; reflexivity. Qed.
+
+(* defaults: one supplied input; `g (g 2 1) (g 1 2)` looks up 2 1 1 2 with operator
+   instances and applications created in between *)
+Example x_defaults :
+  drun 1 [DOther; DOther; DNum 2; DNum 1; DOther; DOther; DNum 1; DNum 2; DOther] [] 0 =
+  [(2, VSrc 2); (1, VIn 0); (1, VIn 0); (2, VSrc 2)].
+Proof. reflexivity. Qed.
 
 (* Expr.match: hierarchy A(5) > B(6); sources typed A and B differ, equal trees match *)
 Definition x_H : hier := mk_hier [(6, 5)] [].
